@@ -29,9 +29,14 @@ def mentions_err(ty, err_path):
 
 
 def uses_of_local(fn, l):
-    """(kind, block, detail) for every read of local l on the normal CFG"""
+    """(kind, block, detail) for every read of local l (the whole value; a read of a payload through a
+    downcast projection presupposes a discriminant test, which is what gets judged) on the normal CFG"""
     out = []
     live = fn.reachable_blocks()
+
+    def whole(pl):
+        return pl["l"] == l and not pl["p"]
+
     for i, b in enumerate(fn.blocks):
         if b["cleanup"] or i not in live:
             continue
@@ -41,23 +46,99 @@ def uses_of_local(fn, l):
             rv = st["rv"]
             for fld in ("op", "a", "b"):
                 o = rv.get(fld)
-                if isinstance(o, dict) and o.get("k") in ("copy", "move") and o["pl"]["l"] == l:
+                if isinstance(o, dict) and o.get("k") in ("copy", "move") and whole(o["pl"]):
                     out.append(("assign-" + rv["k"], i, st))
-            if "pl" in rv and rv["pl"]["l"] == l:
+            if "pl" in rv and whole(rv["pl"]):
                 out.append(("assign-" + rv["k"], i, st))
             for o in rv.get("ops", []):
-                if o["k"] in ("copy", "move") and o["pl"]["l"] == l:
+                if o["k"] in ("copy", "move") and whole(o["pl"]):
                     out.append(("assign-agg", i, st))
         t = b["term"]
         if t["k"] == "call":
             for ai, a in enumerate(t["args"]):
-                if a["k"] in ("copy", "move") and a["pl"]["l"] == l:
+                if a["k"] in ("copy", "move") and whole(a["pl"]):
                     out.append(("call-arg", i, (ai, Call(fn, i, t), a)))
         elif t["k"] == "switch":
             d = t["discr"]
-            if d["k"] in ("copy", "move") and d["pl"]["l"] == l:
+            if d["k"] in ("copy", "move") and whole(d["pl"]):
                 out.append(("switch", i, t))
     return out
+
+
+def hand_match_propagates(fn, l, kind, d, origin_bb):
+    """`match r { Ok(v) => v, Err(e) => return Err(e) }`: None when the Err side re-wraps r's own payload into
+    the return place (through value-preserving moves / From conversions) and nothing else writes it; else why not"""
+    from .mir import Exprs, strip_transparent, reach_from
+    switches = []
+    if kind == "switch":
+        switches.append(d)
+    else:
+        dl = d["pl"]["l"]
+        if d["pl"]["p"]:
+            return "the discriminant is stored into a projection (unanalysable)"
+        us2 = uses_of_local(fn, dl)
+        if not us2:
+            return "ignore"  # a dead discriminant read (drop elaboration)
+        for (k2, b2, d2) in us2:
+            if k2 == "switch":
+                switches.append(d2)
+            else:
+                return "the discriminant is used by something other than a switch (unanalysable)"
+    if len(switches) != 1:
+        return "is not followed by exactly one switch (unanalysable)"
+    sw = switches[0]
+    tg = {v: b for (v, b) in sw["targets"]}
+    if 1 in tg:
+        err_t = tg[1]
+        others = [b for (v, b) in sw["targets"] if v != 1]
+        ot = sw["otherwise"]
+        if fn.blocks[ot]["term"]["k"] != "unreachable":
+            others.append(ot)
+    elif 0 in tg:
+        err_t = sw["otherwise"]
+        others = [tg[0]]
+    else:
+        return "the switch has no Ok/Err arm (unanalysable)"
+    r_err = set(reach_from(fn, [err_t])) | {err_t}
+    r_oth = (set(reach_from(fn, others)) | set(others)) if others else set()
+    excl = r_err - r_oth
+    ex = Exprs(fn)
+    n_good = 0
+    good_blocks = set()
+    for bi in sorted(r_err):
+        b = fn.blocks[bi]
+        if b["cleanup"]:
+            continue
+        for st in b["stmts"]:
+            if st["k"] == "assign" and st["pl"]["l"] == 0 and not st["pl"]["p"]:
+                rv = st["rv"]
+                good = False
+                if bi in excl and rv["k"] == "agg" and rv.get("adt") == "std::result::Result" and rv.get("variant") == "Err" and len(rv["ops"]) == 1:
+                    e = strip_transparent(ex.operand(rv["ops"][0]))
+                    # ((l as Err).0)
+                    if e.k == "field" and e.a[0].k == "downcast" and e.a[0].a[1] == "Err":
+                        base = strip_transparent(e.a[0].a[0])
+                        good = base.k == "call" and base.site is not None and base.site.bb == origin_bb
+                if bi in excl and good:
+                    n_good += 1
+                    good_blocks.add(bi)
+                elif bi in excl:
+                    return "its Err arm writes something other than Err(the same error) into the return value"
+        if bi in excl and b["term"]["k"] == "call" and b["term"].get("dest") and b["term"]["dest"]["l"] == 0:
+            return "its Err arm lets a call write the return value (unanalysable)"
+    if n_good == 0:
+        return "its Err arm does not return Err(the same error): the error is swallowed or replaced"
+    # every path from the Err arm passes one of those writes before it returns or rejoins the Ok side
+    work, seen = [err_t], set()
+    while work:
+        bi = work.pop()
+        if bi in seen or bi in good_blocks:
+            continue
+        seen.add(bi)
+        if bi not in excl or fn.blocks[bi]["term"]["k"] == "return":
+            return "a path through its Err arm continues without returning the error"
+        work.extend(s_ for s_ in fn.succs(bi) if not fn.blocks[s_]["cleanup"])
+    return None
 
 
 def check_err_discipline(mir, reach, res, rule="R-ERR-discipline", err_name="KikiErr"):
@@ -138,7 +219,13 @@ def check_err_discipline(mir, reach, res, rule="R-ERR-discipline", err_name="Kik
                                 if nm in ERR_SWALLOWING_NAMES or nm in ("fmt",):
                                     bad.append("inspected by reference with `%s`" % nm)
                     elif kind == "switch" or kind == "assign-discr":
-                        bad.append("its discriminant is inspected by a hand-written match/if-let instead of being propagated (unanalysable)")
+                        why = hand_match_propagates(fn, l, kind, d, c.bb)
+                        if why == "ignore":
+                            pass
+                        elif why is None:
+                            consumed.append("hand-written match whose Err arm returns Err(payload)")
+                        else:
+                            bad.append("its discriminant is inspected by a hand-written match/if-let and " + why)
                     elif kind == "assign-agg":
                         bad.append("stored into an aggregate")
             key = "%s|%s" % (fn.path, c.rpath)
